@@ -141,6 +141,13 @@ def check(space, state):
     nontrivial = False
     any_value = any(a is not None for a in assign)
     int_w = all(float(r[1]).is_integer() for r in data)
+    if sch.weighted and data and kind != "strand":
+        from mc.common2d import SCALES, scale_invariant, scaled_parts
+        for e in SCALES:
+            sp = scaled_parts(sch, data, cfg, e)[0]
+            for nm in ("rows_scale_mean", "columns_scale_mean", "rows_scale_mean_stddev", "columns_scale_mean_stddev"):
+                if getattr(part, nm) is not None and getattr(sp, nm) is not None:
+                    asserted += scale_invariant(V, [nm], part, sp, e)
 
     def cmp(name, obs, exp):
         nonlocal asserted
